@@ -4,6 +4,8 @@ byte pipe to a reference target.  Only behaviours a real TCP/UDP socket may lega
 partial sends, short receives, timeouts, resets, EOF."""
 import socket as _real
 
+from .monitors import BudgetExceeded
+
 _orig = {}
 
 
@@ -76,6 +78,8 @@ class FakeNet:
         self.record = False
         self.send_calls = []     # bytes of every OS-level send() call argument (C11)
         self.resolve = {}
+        self.call_ops = 0        # I/O operations since the current public call started (logical step budget)
+        self.call_budget = 60000
 
     # -- installation ------------------------------------------------------------------------------
     def install(self):
@@ -104,6 +108,9 @@ class FakeNet:
     def op(self, kind):
         """count one I/O op; return the fault to apply now (or None)"""
         self.io_ops += 1
+        self.call_ops += 1
+        if self.call_ops > self.call_budget:
+            raise BudgetExceeded(f"more than {self.call_budget} socket operations inside one public call")
         f = self.fault
         if f and not f.fired and self.io_ops >= f.k:
             if f.kind == "vanish":
